@@ -124,7 +124,11 @@ class Ufunc(Unit):
         w = S.real("w")
         S.assume(w > Fraction(1, 2))
         S.assume(w < 100)
-        return {"a": a, "b": b, "arr": arr, "w": w, "q": S.quantity(w, u.one), "qm": S.quantity(w, u.m), "qp": S.quantity(w, u.percent)}
+        r = {"a": a, "b": b, "arr": arr, "w": w, "q": S.quantity(w, u.one), "qm": S.quantity(w, u.m), "qp": S.quantity(w, u.percent)}
+        if self.arr in ("sig-sub", "sub-sig"):
+            # a second signal of a strict SUBCLASS of the first one's class (NumPy hands the call to the subclass first)
+            r["sub"] = mk_signal(S, pb.RadioSignal if self.cls is pb.Signal else pb.IntensitySignal, "c2", shp, sr_unit=u.Hz)
+        return r
 
     def operands(self, a):
         A = self.arr
@@ -132,6 +136,7 @@ class Ufunc(Unit):
                 "sig-scalar": (a["a"], a["w"]), "scalar-sig": (a["w"], a["b"]), "sig-q": (a["a"], a["q"]), "q-sig": (a["qm"], a["b"]),
                 # (a Quantity whose unit carries a numeric scale: 50 % is 0.5)
                 "sig-qp": (a["a"], a["qp"]), "qp-sig": (a["qp"], a["b"]),
+                "sig-sub": (a["a"], a.get("sub")), "sub-sig": (a.get("sub"), a["b"]),
                 "out-sig": (a["a"], a["b"]), "out-arr": (a["a"], a["b"]), "inplace": (a["a"], a["b"]), "out-tuple": (a["a"], a["w"])}[A]
 
     def call(self, a):
@@ -286,6 +291,11 @@ def units(tier):
         for fn in ("add", "subtract", "less"):
             us.append(Ufunc(cls, fn, "sig-qp"))
         us.append(Ufunc(cls, "greater", "qp-sig"))
+        if cls is pb.Signal:
+            # operands of different signal classes: the result follows the FIRST signal operand, also when the second is a subclass
+            for fn in ("add", "multiply", "less"):
+                us.append(Ufunc(cls, fn, "sig-sub", (2, 2)))
+            us.append(Ufunc(cls, "subtract", "sub-sig", (2, 2)))
         us.append(Ufunc(cls, "add", "qp-sig"))
         for fn in ("add", "subtract", "multiply", "true_divide"):
             us.append(Ufunc(cls, fn, "inplace"))
